@@ -665,7 +665,7 @@ fn dup() -> impl Strategy<Value = Dup> {
 fn case_strategy() -> impl Strategy<Value = Case> {
   let selection = (
     0u8..4,
-    prop_oneof![5 => Just(M::AG), 4 => Just(M::AA), 2 => Just(M::AN), 3 => Just(M::AForeignF), 3 => Just(M::AForeignG), 2 => Just(M::BG), 1 => Just(M::BF), 1 => Just(M::BA)],
+    prop_oneof![5 => Just(M::AG), 4 => Just(M::AA), 2 => Just(M::AN), 3 => Just(M::AForeignF), 3 => Just(M::AForeignG), 2 => Just(M::BG), 1 => Just(M::BF), 1 => Just(M::BA), 2 => Just(M::ACI), 2 => Just(M::ACD)],
     prop::bool::weighted(0.06),
     prop_oneof![
       24 => Just(KidSel::Target),
